@@ -121,6 +121,8 @@ class Interp:
         self.raise_terms: dict[int, tuple] = {}
         self.unknown_calls: set[str] = set()
         self.sym_shapes: dict[str, tuple] = {}
+        self.obj_class: dict[str, object] = {}  # instance name -> ClassInfo of collaborator objects built during interpretation
+        self._frames: list = []
         self._owners: list = []  # defining class (None for module-level functions) of the functions being interpreted
         self.scans: list[dict] = []
         self.call_log: list[str] = []
@@ -142,7 +144,17 @@ class Interp:
         return self.call_fn(fn, list(args), dict(kw or {}), None, module, is_method=False)
 
     # ---------------------------------------------------------- invocation
-    def call_fn(self, fn, args, kw, owner, module, is_method, closure_env=None):
+    def _plain_class(self, ci) -> bool:
+        if ci.name.endswith(("Config", "State", "Info")) or ci.name in ("BatchProcessor",) or ci.is_dataclass():
+            return False
+        names = {k.name for k in self.ct.mro(ci)}
+        if names & {"Solver", "Problem", "CheckpointMixin", "Exception"}:
+            return False
+        if any(b.split(".")[-1] in ("NamedTuple", "Protocol", "Enum", "IntEnum", "ABC", "Exception") for k in self.ct.mro(ci) for b in k.base_exprs):
+            return False
+        return True
+
+    def call_fn(self, fn, args, kw, owner, module, is_method, closure_env=None, self_value=None):
         self.depth += 1
         if self.depth > self.max_depth:
             self.depth -= 1
@@ -152,8 +164,9 @@ class Interp:
             env = dict(closure_env or {})
             env.update(self.bind(fn, args, kw, is_method, owner, module))
             fr = Frame(owner, module, fn)
+            self._frames.append(fr)
             if is_method:
-                env["self"] = ("self",)
+                env["self"] = self_value if self_value is not None else ("self",)
             if owner is not None:
                 self.call_log.append(f"{owner.name}.{getattr(fn, 'name', '<lambda>')}")
             if isinstance(fn, ast.Lambda):
@@ -163,6 +176,8 @@ class Interp:
         finally:
             self.depth -= 1
             self._owners.pop()
+            if self._frames and self._frames[-1].fn is fn:
+                self._frames.pop()
 
     def bind(self, fn, args, kw, is_method, owner, module):
         a = fn.args
@@ -219,6 +234,8 @@ class Interp:
             return self.call_prim(f[1], args, kw, node, fr)
         if k == "builtin":
             return self.call_builtin(f[1], args, kw, node)
+        if k == "instmethod":
+            return self.call_fn(f[3], args, kw, f[2], f[2].module, True, self_value=f[1])
         if k == "bound":
             return self.call_bound(f[1], f[2], args, kw, node, fr)
         if k == "objmeth":
@@ -246,6 +263,17 @@ class Interp:
                             raise Unsupported(f"record {ci.name}: field {n_} not given")
                         vals[n_] = self.ev(d, {}, Frame(ci, ci.module, None))
                 return ("record", ci.name, tuple((n_, vals[n_]) for n_ in names))
+            # a small collaborator class of the package (plain class with an __init__, not a solver / problem / config /
+            # BatchProcessor): build an instance by interpreting its constructor
+            if self._plain_class(ci):
+                name = f"inst{next(_ctr)}:{ci.name}"
+                self.obj_class[name] = ci
+                init = self.ct.lookup(ci, "__init__")
+                if init is not None:
+                    self.call_fn(init[1], args, kw, init[0], init[0].module, True, self_value=("obj", name))
+                elif args or kw:
+                    raise Unsupported(f"{ci.name}(...) with arguments but no __init__")
+                return ("obj", name)
             return ("app", "new:" + f[1].name, tuple(args) + tuple(v for _k, v in sorted(kw.items())))
         raise Unsupported(f"call of non-callable value {show(f) if isinstance(f, tuple) else f!r}"
                           + (f" at line {node.lineno}" if node is not None else ""))
@@ -747,6 +775,20 @@ class Interp:
             key = (base[1], attr)
             if key in self.obj_attrs:
                 return self.obj_attrs[key]
+            oc = self.obj_class.get(base[1])
+            if oc is not None:
+                r = self.ct.lookup(oc, attr)
+                if r is not None:
+                    decs = [ast.unparse(d) for d in r[1].decorator_list]
+                    if any(d.split(".")[-1] in ("property", "cached_property") for d in decs):
+                        return self.call_fn(r[1], [], {}, r[0], r[0].module, True, self_value=base)
+                    if "staticmethod" in decs:
+                        return ("func", r[0].module, r[1])
+                    return ("instmethod", base, r[0], r[1])
+                ca = self.ct.class_attr(oc, attr)
+                if ca is not None:
+                    return self.ev(ca[1], {}, Frame(ca[0], ca[0].module, None))
+                raise Unsupported(f"attribute {attr} of a {oc.name} instance is never set")
             if base[1] == "problem" and attr in PROBLEM_LEAVES:
                 return ("leaf", "problem." + attr)
             if (base[1], attr) in self.obj_methods:
@@ -758,6 +800,14 @@ class Interp:
             for n_, v_ in base[2]:
                 if n_ == attr:
                     return v_
+            rc = self.ct.find(base[1])
+            r = self.ct.lookup(rc, attr) if rc is not None else None
+            if r is not None:
+                decs = [ast.unparse(d) for d in r[1].decorator_list]
+                if any(d.split(".")[-1] in ("property", "cached_property") for d in decs):
+                    return self.call_fn(r[1], [], {}, r[0], r[0].module, True, self_value=base)
+                if "staticmethod" not in decs:
+                    return ("instmethod", base, r[0], r[1])
             raise Unsupported(f"record {base[1]} has no field {attr}")
         if k == "class":
             r = self.ct.class_attr(base[1], attr)
@@ -821,6 +871,14 @@ class Interp:
         if k == "ite":
             a, b = self.shape_of(t[2]), self.shape_of(t[3])
             return a if a == b else None
+        if k == "lam":
+            sizes = self.axis_sizes.get(t[2], ())
+            inner = self.shape_of(t[3]) if (t[3][0] == "lam") else ()
+            if len(sizes) == 1 and inner is not None:
+                return (next(iter(sizes)),) + tuple(inner)
+            return None
+        if k == "record":
+            return None
         return None
 
     def index(self, base, idx):
@@ -1008,6 +1066,13 @@ class Interp:
                 a = [NONE, args[0], NONE]
             return ("slice", a[0], a[1], a[2])
         if name == "getattr":
+            # getattr(o, ite(c, "a", "b")) is ite(c, o.a, o.b); getattr(o, "a") is o.a
+            if len(args) == 2 and args[1][0] == "const" and isinstance(args[1][1], str) and node is not None:
+                return self.getattr(args[0], args[1][1], node, self._frames[-1] if getattr(self, "_frames", None) else None)
+            if len(args) == 2 and args[1][0] == "ite" and all(x[0] == "const" and isinstance(x[1], str) for x in args[1][2:4]) \
+                    and getattr(self, "_frames", None):
+                fr_ = self._frames[-1]
+                return T_ite(args[1][1], self.getattr(args[0], args[1][2][1], node, fr_), self.getattr(args[0], args[1][3][1], node, fr_))
             return ("app", "getattr", tuple(args))
         if name == "bool":
             return self.truth(args[0]) if args else FALSE
